@@ -1,7 +1,9 @@
 import LinfaSpec.Proofs.Metrics
 import LinfaSpec.Proofs.MetricsRoc
+import LinfaSpec.Proofs.MetricsRoc2
 import LinfaSpec.Proofs.MetricsReal
 import LinfaSpec.Proofs.MetricsMore
+import LinfaSpec.Proofs.MetricsGlue
 
 /-!
 # C05 — every evaluation metric equals its definition recomputed from first principles
@@ -84,6 +86,58 @@ theorem cm_sum_confusion (pred truth : List L) (h : pred.length = truth.length) 
   refine ⟨_, confusion_eq pred truth h, ?_⟩
   rw [cm_sum _ (nodup_classes _ _) _ (pairs_in_classes pred truth)]
   simp [h]
+
+/-- the first clause at the level of the call: for equally long inputs every cell of the returned
+matrix is the number of samples predicted as the row's member whose truth is the column's member -/
+theorem confusion_cells_count (pred truth : List L) (h : pred.length = truth.length) :
+    ∃ m, confusion pred truth = some (classes pred truth, m) ∧
+      ∀ i j a b, (classes pred truth)[i]? = some a → (classes pred truth)[j]? = some b →
+        cell m i j = ((pred.zip truth).filter fun p => p.1 = a ∧ p.2 = b).length :=
+  ⟨_, confusion_eq pred truth h, fun i j a b hi hj =>
+    cm_cells_count _ (nodup_classes pred truth) _ i j a b hi hj⟩
+
+example : ([0, 1, 1] : List Nat).length = ([1, 1, 0] : List Nat).length := rfl
+
+/-- **cells sum, without the guard**: whatever the class list, the cells sum to the number of pairs
+whose two labels both occur in it — the counting loop silently skips the others (`flatten`) -/
+theorem cm_sum_dropped (cs : List L) (hnd : cs.Nodup) (pairs : List (L × L)) :
+    total (countLoop cs pairs) = (pairs.filter fun p => p.1 ∈ cs ∧ p.2 ∈ cs).length := by
+  rw [countLoop_filter, cm_sum cs hnd]
+  intro p hp
+  simpa using (List.mem_filter.mp hp).2
+
+example : total (countLoop [0, 1] [(0, 1), (2, 1), (1, 1), (0, 3)]) = 2 := by decide
+
+/-- **calling-form glue**: a receiver whose label set has exactly the members of its targets (every
+array, view and dataset form; a `CountedTargets` that was not mutated after counting) gives the
+matrix of the plain call -/
+theorem confusion_with_own_labels (lp pred truth : List L) (h : ∀ a, a ∈ lp ↔ a ∈ pred) :
+    confusionWith lp pred truth = confusion pred truth := by
+  unfold confusionWith confusion
+  rw [classes_congr lp truth pred truth (fun a => by simp only [List.mem_append, h a])]
+
+/-- a receiver whose cached label set covers its targets (possibly with further labels) still counts
+every sample; one whose cache lacks a label loses exactly the samples that carry it -/
+theorem confusion_with_labels_sum (lp pred truth : List L) (h : pred.length = truth.length) :
+    ∃ m, confusionWith lp pred truth = some (classes lp truth, m) ∧
+      total m = ((pred.zip truth).filter fun p => p.1 ∈ lp ∨ p.1 ∈ truth).length ∧
+      ((∀ a ∈ pred, a ∈ lp) → total m = pred.length) := by
+  refine ⟨countLoop (classes lp truth) (pred.zip truth), by simp [confusionWith, h], ?_, ?_⟩
+  · rw [cm_sum_dropped _ (nodup_classes lp truth)]
+    congr 1
+    apply List.filter_congr
+    intro p hp
+    have h2 : p.2 ∈ truth := (List.of_mem_zip hp).2
+    simp [mem_classes, h2]
+  · intro hcov
+    rw [cm_sum _ (nodup_classes lp truth)]
+    · simp [h]
+    · intro p hp
+      have := List.of_mem_zip hp
+      simp [mem_classes, this.2, hcov p.1 this.1]
+
+example : confusionWith [0] [0, 2, 0] [0, 0, 1] = some ([1, 0], [[0, 0], [1, 1]]) ∧
+    confusionWith [0, 2] [0, 2, 0] [0, 0, 1] = confusion [0, 2, 0] [0, 0, 1] := by decide
 
 /-- the diagonal counts the equal pairs, so **accuracy is the fraction of equal labels** -/
 theorem cm_diag_count (cs : List L) (hnd : cs.Nodup) (pairs : List (L × L))
@@ -445,6 +499,55 @@ example : auc (0 : Rat) none [(0, true), (0, false), (1/2, false), (1, true)] = 
     mannWhitney [((0 : Rat), true), (0, false), (1/2, false), (1, true)] = 5 / 8 := by
   refine ⟨by decide +kernel, by decide +kernel⟩
 
+/-- **the ROC curve and its thresholds from first principles** (non-negative scores whose distinct
+values differ by more than `eps`): the thresholds are the distinct scores in increasing order; the
+curve has, for every threshold `s`, the point (fraction of positives scored below `s`, fraction of
+negatives scored below `s`) and ends with `(P/P, N/N)`.  `nBelow l c (some s)` is the number of
+samples of class `c` with score `< s`, `nBelow l c none` the number of samples of class `c`. -/
+theorem roc_curve_def (eps : α) (heps : 0 ≤ eps) (samples : List (α × Bool))
+    (hnn : ∀ x ∈ samples, 0 ≤ x.1)
+    (hsep : ∀ x ∈ samples, ∀ y ∈ samples, x.1 ≠ y.1 → eps < |x.1 - y.1|) :
+    ∃ thr : List α, thr.Pairwise (· < ·) ∧ (∀ s, s ∈ thr ↔ ∃ y ∈ samples, y.1 = s) ∧
+      (roc eps none samples).2 = thr ∧
+      (roc eps none samples).1 =
+        (thr.map fun s => ((nBelow samples true (some s) : α) / (nBelow samples true none : α),
+                           (nBelow samples false (some s) : α) / (nBelow samples false none : α))) ++
+        [((nBelow samples true none : α) / (nBelow samples true none : α),
+          (nBelow samples false none : α) / (nBelow samples false none : α))] :=
+  roc_shape eps heps samples hnn hsep
+
+example : nBelow [((0 : Rat), true), (0, false), (1/2, false), (1, true)] false (some (1 : Rat)) = 2 ∧
+    nBelow [((0 : Rat), true), (0, false), (1/2, false), (1, true)] true none = 2 := by
+  refine ⟨by decide +kernel, by decide +kernel⟩
+
+/-- **the ROC curve, its thresholds and the AUC are unchanged by one permutation applied to scores
+and labels together** -/
+theorem perm_invariant_roc (eps : α) (heps : 0 ≤ eps) (samples samples' : List (α × Bool))
+    (hnn : ∀ x ∈ samples, 0 ≤ x.1)
+    (hsep : ∀ x ∈ samples, ∀ y ∈ samples, x.1 ≠ y.1 → eps < |x.1 - y.1|)
+    (h : samples.Perm samples') :
+    roc eps none samples = roc eps none samples' ∧ auc eps none samples = auc eps none samples' := by
+  have hnn' : ∀ x ∈ samples', 0 ≤ x.1 := fun x hx => hnn x (h.mem_iff.mpr hx)
+  have hsep' : ∀ x ∈ samples', ∀ y ∈ samples', x.1 ≠ y.1 → eps < |x.1 - y.1| :=
+    fun x hx y hy => hsep x (h.mem_iff.mpr hx) y (h.mem_iff.mpr hy)
+  obtain ⟨thr, hs, hm, ht, hc⟩ := roc_shape eps heps samples hnn hsep
+  obtain ⟨thr', hs', hm', ht', hc'⟩ := roc_shape eps heps samples' hnn' hsep'
+  have hthr : thr = thr' := by
+    apply sorted_ext hs hs'
+    intro a
+    rw [hm a, hm' a]
+    constructor
+    · rintro ⟨y, hy, hya⟩; exact ⟨y, h.mem_iff.mp hy, hya⟩
+    · rintro ⟨y, hy, hya⟩; exact ⟨y, h.mem_iff.mpr hy, hya⟩
+  have hroc : roc eps none samples = roc eps none samples' := by
+    apply Prod.ext
+    · rw [hc, hc', hthr]
+      simp only [nBelow_perm h]
+    · rw [ht, ht', hthr]
+  exact ⟨hroc, by unfold auc; rw [hroc]⟩
+
+example : ([((0 : Rat), true), (1/2, false), (1, true)]).Perm [(1, true), (0, true), (1/2, false)] := by decide +kernel
+
 /-- the defect that was repaired: with the original sentinel `s0 = 0.0` the curve of the same four
 samples does not start at the origin and the area is 1/2, not the Mann-Whitney value 5/8 -/
 theorem roc_sentinel_defect :
@@ -658,6 +761,18 @@ theorem msle_def (a b : List ℝ) (h : List.zipWith (· - ·) a b ≠ []) :
 
 example : List.zipWith (· - ·) [(1 : ℝ), 2] [0, 3] ≠ [] := by simp
 
+/-- the mean squared log error is unchanged by one permutation applied to predictions and truths together -/
+theorem perm_invariant_msle (ps ps' : List (ℝ × ℝ)) (h : ps.Perm ps') :
+    meanSqLogError (ps.map Prod.fst) (ps.map Prod.snd) = meanSqLogError (ps'.map Prod.fst) (ps'.map Prod.snd) := by
+  unfold meanSqLogError
+  have key := (perm_invariant_regression (0 : ℝ)
+    (ps.map fun p => (Transc.ln (1 + p.1), Transc.ln (1 + p.2)))
+    (ps'.map fun p => (Transc.ln (1 + p.1), Transc.ln (1 + p.2))) (h.map _)).2.1
+  rw [List.map_map, List.map_map, List.map_map, List.map_map] at key ⊢
+  exact key
+
+example : ([((1 : ℝ), (2 : ℝ)), (3, 1)]).Perm [(3, 1), (1, 2)] := List.Perm.swap _ _ _
+
 end LogLoss
 
 section Pearson
@@ -745,6 +860,19 @@ theorem silhouette_sample_def (d : List (List α)) (labels : List Nat) (i li : N
     split
     · rename_i hba; rw [max_eq_left hba]
     · rename_i hba; rw [max_eq_right (le_of_lt (not_le.mp hba))]
+
+/-- **`a(x)` excludes the sample itself**: when the distance of sample `i` to itself is 0, the
+own-cluster accumulator is the sum of the distances to the *other* members of its cluster, and the
+divisor `count - 1` is their number -/
+theorem silhouette_a_excludes_self (d : List (List α)) (labels : List Nat) (i li : Nat)
+    (hrow : (d.getD i [])[i]? = some 0) (hl : labels[i]? = some li) :
+    totalDist d labels i li =
+      ((((d.getD i []).zip labels).eraseIdx i).filterMap fun (x, lj) => if lj == li then some x else none).sum ∧
+    labelCount labels li - 1 = ((labels.eraseIdx i).filter (· == li)).length :=
+  ⟨totalDist_excludes_self d labels i li hrow hl, labelCount_excludes_self labels i li hl⟩
+
+example : ([[0, 1, 4], [1, 0, 3], [4, 3, (0 : Rat)]].getD 1 [])[1]? = some 0 ∧ ([0, 0, 1] : List Nat)[1]? = some 0 := by
+  decide +kernel
 
 /-- **silhouette score**: 1 for a single cluster, otherwise the mean of the per-sample values -/
 theorem silhouette_def (d : List (List α)) (labels : List Nat) :
